@@ -2,6 +2,7 @@ package props
 
 import (
 	"bytes"
+	"context"
 	"encoding/json"
 	"fmt"
 	"os"
@@ -11,6 +12,7 @@ import (
 	"sort"
 	"strconv"
 	"strings"
+	"time"
 
 	"github.com/ghodss/yaml"
 
@@ -577,18 +579,29 @@ func c15CLI(run *report.Run, env *Env, muts []c15mut, jobs []*genrun.Job, result
 			continue
 		}
 		seen[i] = true
+		if results[i] == nil || results[i].Outcome == genrun.GenHang {
+			continue // the library run did not terminate (reported there); the CLI would not either
+		}
 		n++
 		dir := filepath.Join(env.Scratch, "cli", fmt.Sprint(i))
 		os.MkdirAll(dir, 0o755)
 		sf := filepath.Join(dir, "openapi.yaml")
 		os.WriteFile(sf, jobs[i].Spec, 0o644)
 		// same options as the library job whose verdict is compared
-		c := exec.Command(bin, "-file", sf, "-out", filepath.Join(dir, "out"), "-package", "gen", "-config", filepath.Join(dir, "none.yaml"),
+		ctx, cancel := context.WithTimeout(context.Background(), 10*time.Minute)
+		c := exec.CommandContext(ctx, bin, "-file", sf, "-out", filepath.Join(dir, "out"), "-package", "gen", "-config", filepath.Join(dir, "none.yaml"),
 			fmt.Sprintf("-client=%v", jobs[i].Client), fmt.Sprintf("-api-handler=%v", !jobs[i].NoAPI), "-basepath", jobs[i].BasePath)
 		var stderr bytes.Buffer
 		c.Stderr = &stderr
 		c.Stdout = &stderr
 		err := c.Run()
+		cancel()
+		if ctx.Err() != nil {
+			run.Violate(&report.Violation{Attrs: map[string]string{"class": "cli-hang"}, State: muts[i].doc + " :: " + muts[i].desc,
+				Observed: "the CLI did not exit within 10 minutes although the library run of the same document terminated (" + results[i].Outcome + ")", Expected: "exit", Detail: map[string]any{"job": jobs[i]}})
+			os.RemoveAll(dir)
+			continue
+		}
 		exit := 0
 		if err != nil {
 			exit = 1
